@@ -57,7 +57,7 @@ func init() {
 				n, b = 4, 2
 			}
 			return evid.Spec{ID: "C17", Level: "model_checking", Exhaustive: true,
-				Rule: "every environment script of length <= " + itoa(n) + " over {client connects (<=2), sends a full packet, sends a partial packet, its read deadline fires, context cancelled, accept deadline fires} in two pacing modes (events fired back to back, and each event digested by the server before the next), followed by a fair closing phase, against a handler that completes each session and (where a deadline fires after a full packet) one that leaves every session waiting for a continuation " +
+				Rule: "every environment script of length <= " + itoa(n) + " over {client connects (<=2), sends a full packet, sends a full packet with the first octets of another one in the same segment, sends a partial packet, its read deadline fires, context cancelled, accept deadline fires} in two pacing modes (events fired back to back, and each event digested by the server before the next), followed by a fair closing phase, against a handler that completes each session and (where a deadline fires after a full packet) one that leaves every session waiting for a continuation " +
 					"(cancel, clock advanced, every armed deadline fires) is run against the real Serve loop under the controlled scheduler with a scripted listener/connections and a virtual clock; for each script every schedule with <= " + itoa(b) +
 					" deviations is executed. Oracles on the global event log: every Read is issued with a finite read deadline in the (virtual) future armed; a connection whose deadline fires is closed and never read or written again; " +
 					"when Serve returns the listener was closed before, every accepted connection is closed, and no handler entry/exit, read, write or close carries a later index; Serve does return (a state with no runnable thread is a deadlock violation). " +
